@@ -45,11 +45,11 @@ def lineCount (input : Bytes) : Nat := 1 + (input.filter (· == 10)).length
 /-- an error of lexer ∘ parser is positioned at a token of the lexer's stream for this input -/
 theorem err_at_token (pf : Bytes → Option UInt64) (input : Bytes) (pos : Nat)
     (h : parseSource pf input = .error (.err pos)) :
-    ∃ is, Lex.lexAll input false = .items is ∧ ∃ it ∈ is, it.pos = pos :=
+    ∃ is, Lex.lexAll input false = .items is ∧ ∃ it ∈ is, Lemmas.ParserSafe.ErrAt it pos :=
   parse_source_err_at_token pf input pos h
 
 theorem soyFile_err_at_token (input : Bytes) (pos : Nat) (h : soyFile input = .error (.err pos)) :
-    ∃ is, Lex.lexAll input false = .items is ∧ ∃ it ∈ is, it.pos = pos :=
+    ∃ is, Lex.lexAll input false = .items is ∧ ∃ it ∈ is, Lemmas.ParserSafe.ErrAt it pos :=
   err_at_token parseFloat64 input pos h
 
 theorem err_pos_in_input (pf : Bytes → Option UInt64) (input : Bytes) (pos : Nat)
@@ -60,6 +60,7 @@ theorem err_pos_in_input (pf : Bytes → Option UInt64) (input : Bytes) (pos : N
   rcases parse_err_at_token pf is pos h with h0 | ⟨it, hm, hp⟩
   · omega
   · have := hb it hm
+    have := hp.le
     omega
 
 theorem err_line_in_range (pf : Bytes → Option UInt64) (input : Bytes) (pos : Nat)
